@@ -40,7 +40,7 @@ MODES = ["burst", "poisson", "overload", "mixed", "just_after_refill", "idle_the
 def plan(prop: str, tier: str) -> Plan:
     if tier == "quick":
         return Plan(shards=4, cases_per_shard=2500, timeout_s=300)
-    return Plan(shards=16, cases_per_shard=60000, timeout_s=1500)
+    return Plan(shards=16, cases_per_shard=120000, timeout_s=1500)
 
 
 class Clock:
